@@ -6,6 +6,8 @@
 From Coq Require Import List Arith ZArith Bool.
 From TwLib Require Import DeferredK DeferredKFacts.
 From C01 Require Import Model Proofs Order.
+From TwLib Require Import DeferredKR.
+From C01 Require Import ModelR ProofsR.
 Import ListNotations.
 
 (** the loop computes an outcome the interpreter predicts: same final heap (results, pending callbacks, pause
@@ -81,3 +83,32 @@ Theorem each_callback_at_most_once : forall cs ops x,
   NoDup (run_ids_of x (concat (snd (run_program true (cs, ops))))).
 Proof. exact program_at_most_once. Qed.
 Print Assumptions each_callback_at_most_once.
+
+(** ---- re-entrant callbacks (scripts of kernel operations executed inside a callback; kernel TwLib.DeferredKR,
+    Spec C01.ModelR) ---- *)
+
+(** the iterative loop with re-entrant scripts computes what the recursive interpreter with the same scripts
+    computes: whenever the loop finishes within its fuel, the interpreter (same fuel) gives the same final state —
+    results, pending callbacks, pause counts, guards — and the same sequence of callback calls with the same
+    arguments, for every heap, every stack of Deferreds and every script *)
+Theorem reentrant_loop_refines_spec : forall fuel chk s chain r,
+  walk_from fuel chk s chain = Some r -> srun_chain fuel chk s chain = Some r.
+Proof. exact walk_refines. Qed.
+Print Assumptions reentrant_loop_refines_spec.
+
+Theorem reentrant_runCallbacks_refines_spec : forall fuel s d r,
+  walk fuel s [d] = Some r -> srun fuel true s d = Some r.
+Proof. exact walk_refines_srun. Qed.
+Print Assumptions reentrant_runCallbacks_refines_spec.
+
+(** the interpreter's outcome does not depend on the fuel once it is enough (so "the" predicted outcome exists) *)
+Theorem reentrant_spec_fuel_monotone : forall f f' chk s d r,
+  f <= f' -> srun f chk s d = Some r -> srun f' chk s d = Some r.
+Proof. intros f f' chk s d r. exact (srun_mono f f' chk s d r). Qed.
+Print Assumptions reentrant_spec_fuel_monotone.
+
+(** whole programs with re-entrant callbacks (all six top-level operations, any scripts) *)
+Theorem reentrant_programs_refine_spec : forall fuel s ops r,
+  run_r fuel s ops = Some r -> spec_run fuel s ops = Some r.
+Proof. exact program_refines. Qed.
+Print Assumptions reentrant_programs_refine_spec.
